@@ -12,7 +12,7 @@ use std::sync::atomic::{AtomicBool, AtomicUsize, Ordering};
 use std::sync::{Arc, Mutex};
 use std::time::{Duration, Instant};
 
-pub const SHAPES: &[&str] = &["chain_out", "chain_eph2", "chain_alt", "chain_ephlong", "layers", "layers_eph", "star_in", "star_out", "diamonds", "wide_eph", "eph_head"];
+pub const SHAPES: &[&str] = &["chain_out", "chain_eph2", "chain_alt", "chain_ephlong", "layers", "layers_eph", "star_in", "star_out", "diamonds", "wide_eph", "eph_head", "star_always"];
 pub const CASCADES: &[&str] = &["build", "noop", "inval_root", "inval_root_collide", "inval_leaf", "fail_root", "abort_mid"];
 
 struct BigGraph {
@@ -188,6 +188,14 @@ fn make_shape(shape: &str, size: usize, collide: bool) -> BigGraph {
                 prev = g.add(Output, &[b, c], big);
                 i += 3;
             }
+        }
+        "star_always" => {
+            // very wide fan-in of jobs that all run in every evaluation; only the first one ever changes its output
+            let mut roots = vec![head];
+            for _ in 0..size {
+                roots.push(g.add(Always, &[], big));
+            }
+            g.add(Output, &roots, big);
         }
         "eph_head" => {
             // one Ephemeral on top of a long chain of Outputs: anything that walks "everything below an Ephemeral" gets deep here
@@ -663,7 +671,7 @@ pub fn run_case(shape: &str, size: usize, cascade: &str) -> CaseResult {
                     if cascade == "inval_root" && nexp < n / 2 {
                         r.problems.push(("HARNESS".into(), format!("inval_root expected to re-execute most of the cone but the reference says {}", nexp)));
                     }
-                    if cascade == "inval_root_collide" && nexp > n / 2 + 2 && shape != "star_out" && shape != "star_in" && shape != "wide_eph" {
+                    if cascade == "inval_root_collide" && nexp > n / 2 + 2 && shape != "star_out" && shape != "star_in" && shape != "wide_eph" && shape != "star_always" {
                         r.problems.push(("HARNESS".into(), format!("colliding outputs should stop the cascade early but the reference says {}", nexp)));
                     }
                     let _ = &up1;
@@ -680,7 +688,8 @@ pub fn run_case(shape: &str, size: usize, cascade: &str) -> CaseResult {
                         Some(k) if k == want => {}
                         other => r.problems.push(("C19".into(), format!("failure at the root: {:?} jobs upstream-failed right after the call, expected the whole cone {}", other, want))),
                     }
-                    if o.nstarted != 1 {
+                    // (in `star_always` the other roots are independent Always jobs: they run as well)
+                    if o.nstarted != 1 && shape != "star_always" {
                         r.problems.push(("C19".into(), format!("failure at the root: {} jobs started, expected only the root", o.nstarted)));
                     }
                     if let Some(h2) = &o.history {
